@@ -5,8 +5,11 @@
 BIN=${1:-/verif/target/release/verif}
 cd /repo || exit 2
 if ! git diff --quiet; then echo "/repo has local changes; refusing"; exit 2; fi
+K=0
 for d in /verif/seeded/*/; do
   n=$(basename $d)
+  # REGRESS_STRIDE=s REGRESS_OFFSET=o: only every s-th seeded change, starting with the o-th
+  K=$((K+1)); if [ $(( (K + ${REGRESS_OFFSET:-0}) % ${REGRESS_STRIDE:-1} )) -ne 0 ]; then continue; fi
   id=$(python3 -c "
 import json,sys
 m=json.load(open('$d/meta.json'))
